@@ -133,7 +133,7 @@ def mk_stft(ns, L, S, style, kaldi, junk_tag='', rec_frames=True):
 
 
 def sig(off, n, readonly=True, fn=None):
-    f = fn or x
+    f = x if fn is None else fn
     offz = _z(off)
     return SArr(conc(n) if isinstance(n, SInt) else n, lambda i: f(offz + i), 'f8', readonly=readonly)
 
